@@ -7,7 +7,7 @@
    (one step = one Read+limiter wait, one Write, or the deferred closeBridge).
    External behaviour assumed (hypotheses written into the model, see Model/Pipe.v): x/time/rate's WaitN fails iff
    n > burst or the context is cancelled and otherwise only delays; a Write returns 0 <= n <= len. *)
-From TX Require Import Model.Pipe Model.PipeClose Model.PipeLocks Proofs.PipeLocks Proofs.PipeKinds Proofs.Pipe Proofs.PipeTop Proofs.PipeBridge Proofs.PipeLife Proofs.PipeClose Proofs.PipeReattach Proofs.PipeIndep Proofs.SideC02 Gen.C02.
+From TX Require Import Model.Pipe Model.PipeClose Model.PipeLocks Proofs.PipeLocks Proofs.PipeKinds Proofs.Pipe Proofs.PipeTop Proofs.PipeBridge Proofs.PipeLife Proofs.PipeClose Proofs.PipeReattach Proofs.PipeIndep Proofs.PipeAttach Proofs.SideC02 Gen.C02.
 
 (* ---------------- one direction in isolation: Bridge.CopyWithControl ---------------- *)
 
@@ -363,6 +363,47 @@ Theorem C02_close_on_half_close_truncates_refuted :
                 nth_error (snd (reqresp_run CloseOnNoCap 1 3 sched)) 1 = Some (TRespDone true).
 Proof. exact close_on_half_close_truncates_refuted. Qed.
 Print Assumptions C02_close_on_half_close_truncates_refuted.
+
+(* ---------------- interleavings with the target attach; Start returns ---------------- *)
+
+(* "all interleavings of the two copy directions with target-attach": the attach event (index 2) may fall anywhere among the steps
+   of the two directions; the resulting state is exactly that of the attached bridge run on the steps that follow the attach, so
+   every theorem about bridge_run in this file holds for every such interleaving (steps before the attach move nothing) *)
+Theorem C02_attach_anywhere :
+  forall lim rs0 ws0 rs1 ws1 (sched : list nat),
+  snd (attach_run current_variant BatchUpdateThreshold lim rs0 ws0 rs1 ws1 sched) =
+  bridge_run current_variant BatchUpdateThreshold lim rs0 ws0 rs1 ws1 (if existsb (Nat.eqb 2) sched then after_attach sched else []).
+Proof. exact (attach_anywhere current_variant BatchUpdateThreshold). Qed.
+Print Assumptions C02_attach_anywhere.
+
+Theorem C02_attach_anywhere_delivered_is_prefix :
+  forall lim rs0 ws0 rs1 ws1 (sched : list nat),
+  prefix (s_out0 (fst (snd (attach_run current_variant BatchUpdateThreshold lim rs0 ws0 rs1 ws1 sched)))) (readable rs0) /\
+  prefix (s_out1 (fst (snd (attach_run current_variant BatchUpdateThreshold lim rs0 ws0 rs1 ws1 sched)))) (readable rs1).
+Proof. exact (attach_anywhere_prefix current_variant BatchUpdateThreshold). Qed.
+Print Assumptions C02_attach_anywhere_delivered_is_prefix.
+
+(* Bridge.Start returns (both directions done = wg.Wait passes, bridge closed) once each direction has been scheduled
+   2|script|+3 times, under every schedule; runBridgeLifecycle then deletes the tunnel (C02_registry_forgets, where the
+   running time of a bridge is an arbitrary finite number of ticks) *)
+Theorem C02_start_returns :
+  forall lim rs0 ws0 rs1 ws1 (sched : list nat),
+  2 * length rs0 + 3 <= count_occ Nat.eq_dec sched 0 ->
+  2 * length rs1 + 3 <= count_occ Nat.eq_dec sched 1 ->
+  exists t0 t1 x0 x1, snd (bridge_run current_variant BatchUpdateThreshold lim rs0 ws0 rs1 ws1 sched) = [t0; t1] /\
+                      b_pc t0 = BDone x0 /\ b_pc t1 = BDone x1 /\
+                      s_closed (fst (bridge_run current_variant BatchUpdateThreshold lim rs0 ws0 rs1 ws1 sched)) = true.
+Proof. exact (start_returns current_variant BatchUpdateThreshold). Qed.
+Print Assumptions C02_start_returns.
+
+(* non-vacuity: an attach in the middle of a schedule *)
+Theorem C02_attach_run_exists :
+  let rs0 := [{| r_data := [1;2]%N; r_end := RFatal |}] in
+  let rs1 := [{| r_data := [9]%N; r_end := RNone |}] in
+  let s := attach_run Sliced 1048576%N None rs0 [] rs1 [] [0;1;0;2;1;1;0;0;0] in
+  fst s = true /\ s_out0 (fst (snd s)) = [1;2]%N /\ s_out1 (fst (snd s)) = [9]%N /\ s_closed (fst (snd s)) = true.
+Proof. exact attach_nonvacuous. Qed.
+Print Assumptions C02_attach_run_exists.
 
 (* ---------------- (4) the server forgets the tunnel ---------------- *)
 
